@@ -838,6 +838,9 @@ func (it *Interp) binop(op token.Token, a, b Value, ta, tb types.Type) Value {
 			if it.Branch(c.Eq(y, zero)) {
 				it.goPanicStr("div0", "runtime error: integer divide by zero")
 			}
+			if r := it.constDiv(op, signed, x, y); r != nil { // opt-in (params.exact_const_div), see divconst.go
+				return r
+			}
 			if signed {
 				if op == token.QUO {
 					return c.BVSDiv(x, y)
